@@ -2,7 +2,7 @@
 
 Coq model of the regular expressions as ordered alternation over the GENERATED tables, theorems over the
 whole grammar, correspondence on every unit string of the grammar and every pair sharing base and power."""
-import os, re, random, itertools
+import os, re, random, itertools, struct
 from fractions import Fraction
 import engine
 from engine import Prop, Case
@@ -35,6 +35,17 @@ def read_tables(repo):
             raise RuntimeError('cannot find %s in util.cpp' % name)
         return m.group(1).split('|')
     return alt('PREFIXES'), alt('UNITS')
+
+
+def read_factor_exponents(repo):
+    """decimal exponent of every PREFIX_FACTORS entry of the tree under check (None when it is no power of ten)"""
+    src = open(os.path.join(repo, 'src', 'util', 'util.cpp'), encoding='utf-8', errors='replace').read()
+    m = re.search(r'PREFIX_FACTORS\s*=\s*\{(.*?)\};', src, re.S)
+    out = {}
+    for p, v in re.findall(r'\{\s*"([^"]*)"\s*,\s*([0-9.eE+-]+)\s*\}', m.group(1) if m else ''):
+        f = float(v)
+        out[p] = next((k for k in range(-30, 31) if float('1e%d' % k) == f), None)
+    return out
 
 
 def ulp_at(x):
@@ -80,6 +91,34 @@ def close_to_pow10(hexbits, k, tol):
     return abs(v - exact) <= tol * ulp_at(exact)
 
 
+CONV_TOLERANCE = 5      # ulp: 4 for the factor of a plain prefix change (n = 1) + 1 for the product value * factor
+
+
+def scaled_double_ok(implbits, valuebits, k):
+    """convertToSeconds/Kelvin<double>: value * getSIScaling(..) against value * 10^k"""
+    v = dbl_of_bits(valuebits)
+    r = dbl_of_bits(implbits)
+    if isinstance(v, str):
+        return r == v
+    if v == 0:
+        return implbits == valuebits
+    if abs(k) > 700:
+        return False
+    exact = v * Fraction(10) ** k
+    if isinstance(r, str):
+        # the product overflows: an infinity of the right sign, when value * 10^k is beyond (or within tolerance of) the largest double
+        return r == ('inf' if exact > 0 else '-inf') and abs(exact) >= DBL_MAX - CONV_TOLERANCE * ulp_at(DBL_MAX)
+    return abs(r - exact) <= CONV_TOLERANCE * ulp_at(min(abs(exact), DBL_MAX))
+
+
+def scaled_int_ok(impl, n, k):
+    """convertToSeconds/Kelvin<int>: round(value * factor) against n * 10^k; near a half either neighbour is accepted"""
+    if abs(k) > 400:
+        return False
+    exact = n * Fraction(10) ** k
+    return abs(impl - exact) <= Fraction(1, 2) + CONV_TOLERANCE * Fraction(2) ** -52 * abs(exact)
+
+
 class C18(Prop):
     id = 'C18'
     driver = 'drv_C18'
@@ -118,6 +157,11 @@ class C18(Prop):
         self.exhaustive = (tier == 'thorough')
         return engine.run_check(self, tier, seed, repo)
 
+    def extra_checks(self, ctx):
+        ctx['ev']['entry_points'] = {self.ROUTES.get(c, c): n for c, n in sorted(self.route_counts.items())}
+        ctx['ev']['entry_points_not_called'] = self.NOT_CALLED
+        return []
+
     def compare(self, a, b):
         if b.startswith('OK k:'):
             if not a.startswith('OK d:'):
@@ -127,17 +171,32 @@ class C18(Prop):
                 return close_to_pow10(a[5:], int(k), ulp_tolerance(int(n)))
             except ValueError:
                 return False
+        if b.startswith('OK x:'):
+            if not a.startswith('OK d:'):
+                return False
+            vb, k = b[5:].split(':')
+            return scaled_double_ok(a[5:], vb, int(k))
+        if b.startswith('OK y:'):
+            if not a.startswith('OK i:'):
+                return False
+            n, k = b[5:].split(':')
+            try:
+                return scaled_int_ok(int(a[5:]), int(n), int(k))
+            except ValueError:
+                return False
         return Prop.compare(self, a, b)
 
     def describe(self, case, impl, spec):
         t = case.lines[0].split(' ')
-        args = [dec(x).decode('utf-8', 'replace') for x in t[1:]]
+        args = [dec(x).decode('utf-8', 'replace') if x.startswith('s:') else x for x in t[1:]]
         return '%s %r: implementation answers %r where the specification requires %r' % (t[0], args, impl, spec)
 
     def signature(self, case, impl, spec):
         t = case.lines[0].split(' ')
         cmd = t[0]
-        args = [dec(x).decode('utf-8', 'replace') for x in t[1:]]
+        args = [dec(x).decode('utf-8', 'replace') if x.startswith('s:') else x for x in t[1:]]
+        if cmd in self.ROUTE_CMDS:
+            return {'kind': 'route', 'route': cmd, 'base': args[0] if args else ''}
         kind = 'parse' if cmd.startswith('split') or cmd.startswith('issi') else 'scaling'
         base = None
         if cmd in ('split3', 'issi3', 'scaling6', 'scalable6'):
@@ -167,6 +226,36 @@ class C18(Prop):
                  'mV\x00', '\x00', 'm\x00V', 'Vm^2147483648', 'km^-2147483649', 'Ym^400', 'ym^400', 'Ym^-400', 'mm^9999999999',
                  'M', 'k', 'u', 'n', 'p', 'f', 'a', 'z', 'y', 'Y', 'Z', 'E', 'P', 'G', 'c', 'ma', 'am', 'yy', 'yg', 'zs', 'EV', 'PV', 'Pg', 'Eg']
 
+    # public entry points of include/nix/util/util.hpp exercised by the driver: command -> route
+    ROUTES = {
+        'split': 'util::splitUnit', 'split3': 'util::splitUnit',
+        'issi': 'util::isSIUnit + isAtomicSIUnit + isCompoundSIUnit', 'issi3': 'util::isSIUnit + isAtomicSIUnit + isCompoundSIUnit',
+        'scalable': 'util::isScalable(string, string)', 'scalable6': 'util::isScalable(string, string)',
+        'scaling': 'util::getSIScaling', 'scaling6': 'util::getSIScaling',
+        'sanitize': 'util::unitSanitizer', 'deblank': 'util::deblankString(const string&)',
+        'deblank_inplace': 'util::deblankString(string&)',
+        'vscalable': 'util::isScalable(vector<string>, vector<string>)', 'setsame': 'util::isSetAtSamePos',
+        'splitc': 'util::splitCompoundUnit (+ invertPower)',
+        'tosec_d': 'util::convertToSeconds<double>', 'tosec_i': 'util::convertToSeconds<int>',
+        'tokel_d': 'util::convertToKelvin<double>', 'tokel_i': 'util::convertToKelvin<int>',
+        'namecheck': 'util::nameCheck', 'namesan': 'util::nameSanitizer', 'chkname': 'util::checkEntityName',
+        'chktype': 'util::checkEntityType', 'chkempty': 'util::checkEmptyString', 'chknt': 'util::checkEntityNameAndType',
+        'timert': 'util::timeToStr + strToTime (round trip)', 'numrt': 'util::numToStr + strToNum<long long> (round trip)',
+        'strnum': 'util::strToNum<int>', 'deref': 'util::deRef(optional<int>) + deRef(int)',
+    }
+    ROUTE_CMDS = ('vscalable', 'setsame', 'splitc', 'tosec_d', 'tosec_i', 'tokel_d', 'tokel_i', 'deblank_inplace', 'namecheck',
+                  'namesan', 'chkname', 'chktype', 'chkempty', 'chknt', 'timert', 'numrt', 'strnum', 'deref')
+    NOT_CALLED = {
+        'util::getDimensionUnit (dataAccess.hpp)': 'needs entities; belongs to the retrieval drivers (C05)',
+        'util::convertToSeconds/convertToKelvin<float>, <long long> ...': 'only T = double and T = int are instantiated (binary32 arithmetic is not modelled here)',
+        'util::dimTypeToStr': 'dimension descriptors (C13)',
+        'util::toId / toName / checkEntityInput / checkNameOrId(not declared)': 'need entities (C03 / C12)',
+        'util::createId, getTime': 'non-deterministic (C12 examines the id generator)',
+        'util::numToStr / strToNum for floating types': 'stream formatting with 6 significant digits is not a round trip; not a unit function',
+        'util::applyPolynomial': 'array data path (C01 calibrated reads)',
+    }
+    route_counts = {}
+
     def generate(self, seed, tier, scale=1):
         rnd = random.Random(seed)
         prefixes, units = read_tables(self.repo)
@@ -175,8 +264,21 @@ class C18(Prop):
         cases = []
         quick = (tier == 'quick' and scale == 1)
 
+        counts = {}
+
         def c(tag, cmd, *args):
+            counts[cmd] = counts.get(cmd, 0) + 1
             cases.append(Case('%s %s' % (cmd, ' '.join(enc(a) for a in args)), tag))
+
+        def line(cmd, *toks):
+            counts[cmd] = counts.get(cmd, 0) + 1
+            return '%s %s' % (cmd, ' '.join(toks))
+
+        def lst(xs):
+            return ' '.join([str(len(xs))] + [enc(x) for x in xs])
+
+        def dbits(x):
+            return 'd:%016x' % struct.unpack('>Q', struct.pack('>d', x))[0]
 
         # 1. the whole grammar of the property's quantifier: 21 x 31 x 7 strings
         for p in allp:
@@ -279,6 +381,114 @@ class C18(Prop):
             b = s.encode('utf-8', 'replace') if rnd.random() < 0.8 else s.encode('latin-1', 'replace')
             c('sanitize', 'sanitize', b)
             c('sanitize', 'deblank', b)
+        # ---- further public routes of util.hpp (notes/route-audit.md, section C18) --------------------------------------
+        nr = 1 if quick else 8
+        exps = read_factor_exponents(self.repo)
+        # 9. isScalable(vector, vector) and isSetAtSamePos
+        for _ in range(1200 * nr):
+            n = rnd.randrange(0, 5)
+            a = [rnd.choice(valid) if rnd.random() < 0.9 else rnd.choice(mal) for _ in range(n)]
+            b = []
+            for s in a:
+                k = rnd.random()
+                if k < 0.7 and s in valid:
+                    # same base and power, another prefix: rebuild from the parts
+                    i = valid.index(s)
+                    w = pw[i % len(pw)]
+                    u = units[(i // len(pw)) % len(units)]
+                    b.append(rnd.choice(allp) + u + w)
+                elif k < 0.85:
+                    b.append(s)
+                else:
+                    b.append(rnd.choice(valid + mal))
+            k = rnd.random()
+            if k < 0.1 and b:
+                b.pop(rnd.randrange(len(b)))
+            elif k < 0.2:
+                b.insert(rnd.randrange(len(b) + 1), rnd.choice(valid))
+            cases.append(Case(line('vscalable', lst(a), lst(b)), 'route-vector'))
+            cases.append(Case(line('vscalable', lst(b), lst(a)), 'route-vector'))
+            e1 = [rnd.choice(['', '', 'mV', ' ', 'x']) for _ in range(rnd.randrange(0, 5))]
+            e2 = [rnd.choice(['', 's', 'spikes']) if rnd.random() < 0.3 else ('' if x == '' else 'q') for x in e1]
+            if rnd.random() < 0.15 and e2:
+                e2.pop()
+            cases.append(Case(line('setsame', lst(e1), lst(e2)), 'route-vector'))
+            cases.append(Case(line('setsame', lst(e2), lst(e1)), 'route-vector'))
+        # 10. splitCompoundUnit: atoms, real compound units (every separator pattern), blanks, malformed
+        for s in valid if not quick else rnd.sample(valid, 600):
+            c('route-compound', 'splitc', s)
+        for s in mal:
+            c('route-compound', 'splitc', s)
+        for _ in range(2500 * nr):
+            n = rnd.randrange(2, 5)
+            parts = [rnd.choice(valid) if rnd.random() < 0.93 else rnd.choice(mal + ['m^+2', 'kg^-+2', 's^+1']) for _ in range(n)]
+            s = parts[0]
+            for q in parts[1:]:
+                s += rnd.choice(['*', '/', '*', '/', '/', ' * ', ' / ', '/ ', '', '.', '  ']) + q
+            if rnd.random() < 0.05:
+                s += rnd.choice(['/', '*', ' ', ' /', '/ '])
+            c('route-compound', 'splitc', s)
+        # 11. convertToSeconds<T> / convertToKelvin<T>, T = double and int
+        sec_units = ['min', 'h', 's', 'sec'] + [p + 's' for p in prefixes] + ['mmin', 'hh', 'S', 'Sec', 'ms^2', 'ms^1', 's^1', '', ' s', 'spikes', 'mV', 'K', 'Hz']
+        kel_units = ['K', '\u00b0K', 'C', '\u00b0C', 'F', '\u00b0F'] + [p + 'K' for p in prefixes] + ['k', 'c', 'f', '\u00b0', 'degC', 'mK^2', 'K^1', '', ' K', 's', 'mV', 'cd']
+        dvals = [0.0, -0.0, 1.0, -1.0, 1.5, 0.1, 60.0, 3600.0, 37.0, 98.6, -40.0, 451.0, 273.15, -273.15, 1e-300, 1e300, 1.7976931348623157e308,
+                 5e-324, float('inf'), float('-inf'), float('nan'), 123456789.125, 2.5, 0.5, 1e16 + 2]
+        for units_, cmd_d, cmd_i, base in ((sec_units, 'tosec_d', 'tosec_i', 's'), (kel_units, 'tokel_d', 'tokel_i', 'K')):
+            for u in units_:
+                vs = dvals + [rnd.uniform(-1e6, 1e6) for _ in range(4 * nr)] + [rnd.uniform(-1, 1) * 10.0 ** rnd.randrange(-20, 20) for _ in range(4 * nr)]
+                for v in vs:
+                    cases.append(Case(line(cmd_d, enc(u), dbits(v)), 'route-convert'))
+                # ints: keep every intermediate and the result inside int (overflow / out-of-range casts are undefined behaviour)
+                k = exps.get(u[:-1]) if (len(u) > 1 and u.endswith(base) and u[:-1] in exps) else None
+                lim = 30000000 if u == 'min' else 500000 if u == 'h' else 2000000000
+                if k is not None and k > 0:
+                    lim = max(0, 2000000000 // 10 ** k)
+                ivals = [0, 1, -1, 2, 5, 7, -13, 33, 59, 60, 100, 451, 1000, -1000, 1499, 1500, 1501, 2500, 4999, 5000, 5001] + \
+                        [rnd.randint(-100000, 100000) for _ in range(6 * nr)] + [lim, -lim]
+                for n in ivals:
+                    if abs(n) <= lim:
+                        cases.append(Case(line(cmd_i, enc(u), str(n)), 'route-convert'))
+        # 12. in-place deblank, name helpers, round trips
+        for s in mal + [rnd.choice(valid) for _ in range(100)]:
+            c('route-helpers', 'deblank_inplace', s)
+        names = ['', 'a', 'a/b', '/', '//', 'a/', '/a', 'a b', 'a//b/c', 'x' * 40, 'n\u00e4me', 'a\\b', '_', 'a_b', ' ']
+        for s in names:
+            for cmd in ('namecheck', 'namesan', 'chkname', 'chktype', 'chkempty'):
+                c('route-helpers', cmd, s)
+            for s2 in names[:6]:
+                c('route-helpers', 'chknt', s, s2)
+        for n in [0, 1, 59, 60, 86399, 86400, 951782400, 1234567890, 1709164800, 1709251199, 2147483647, 2147483648, 4102444799, -1, -86400,
+                  -2208988800] + [rnd.randrange(-2208988800, 4102444800) for _ in range(200 * nr)]:
+            cases.append(Case(line('timert', str(n)), 'route-helpers'))
+        for n in [0, 1, -1, 2 ** 31 - 1, -2 ** 31, 2 ** 63 - 1, -2 ** 63] + [rnd.randrange(-2 ** 63, 2 ** 63) for _ in range(100 * nr)]:
+            cases.append(Case(line('numrt', str(n)), 'route-helpers'))
+        for s in ['0', '12', '-7', ' 42', '\t-3', 'x', '', '2147483647', '2147483648', '-2147483648', '-2147483649', '+', '-', '+5', '12abc', '0x10',
+                  '1e3', '1.9', '007', '99999999999999999999', ' ', '--1', '+-1'] + [str(rnd.randrange(-2 ** 33, 2 ** 33)) for _ in range(60 * nr)]:
+            c('route-helpers', 'strnum', s)
+        for v in ['none', '0', '5', '-3', '2147483647', '-2147483648']:
+            cases.append(Case(line('deref', v), 'route-helpers'))
+        # 13. both directions and a repetition inside ONE process, on pairs whose concatenations collide when written without a
+        #     separator ("m" + "mm" = "mm" + "m", "T" + "TT" = "TT" + "T"): an answer remembered under such a key would show here
+        twins = [u for u in units if u in prefixes]
+        for u in twins:
+            for w in pw:
+                a, b = u + w, u + u + w
+                cases.append(Case([line('scaling', enc(a), enc(b)), line('scaling', enc(b), enc(a)), line('scaling', enc(a), enc(b)),
+                                   line('scalable', enc(a), enc(b)), line('scalable', enc(b), enc(a)),
+                                   line('vscalable', lst([a, b]), lst([b, a])), line('vscalable', lst([b, a]), lst([a, b])),
+                                   line('scaling', enc(b), enc(a))], 'both-directions'))
+        for _ in range(300 * nr):
+            u, w = rnd.choice(units), rnd.choice(pw)
+            pa, pb, pc = rnd.choice(allp), rnd.choice(allp), rnd.choice(allp)
+            a, b, d = pa + u + w, pb + u + w, pc + u + w
+            cases.append(Case([line('scaling', enc(a), enc(b)), line('scaling', enc(b), enc(a)), line('scaling', enc(b), enc(d)),
+                               line('scaling', enc(a), enc(d)), line('scaling', enc(a), enc(b))], 'both-directions'))
+        for p1, p2 in [('m', 'k'), ('k', 'm'), ('u', 'M'), ('', 'm'), ('da', 'd'), ('d', 'da')]:
+            cases.append(Case([line('tosec_d', enc(p1 + 's'), dbits(2.5)), line('tosec_d', enc(p2 + 's'), dbits(2.5)),
+                               line('tosec_d', enc(p1 + 's'), dbits(2.5)), line('tokel_d', enc(p1 + 'K'), dbits(2.5)),
+                               line('tokel_d', enc(p2 + 'K'), dbits(2.5)), line('tokel_d', enc(p1 + 'K'), dbits(2.5))], 'both-directions'))
+        if scale == 1:
+            self.route_counts = counts
         return cases
 
 
